@@ -185,7 +185,27 @@ class Body:
             self._pred = p
         return self._pred
 
+    @property
+    def whole_defs(self):
+        """local -> [assign statements whose destination is the whole local] (cached)."""
+        d = getattr(self, "_whole_defs", None)
+        if d is None:
+            d = defaultdict(list)
+            for s, st in self.assigns():
+                if not st["dst"].get("p"):
+                    d[st["dst"]["l"]].append(st)
+            self._whole_defs = d
+        return d
+
     def reachable_blocks(self, start=0):
+        if start == 0 and getattr(self, "_reach0", None) is not None:
+            return self._reach0
+        r = self._reachable_blocks(start)
+        if start == 0:
+            self._reach0 = r
+        return r
+
+    def _reachable_blocks(self, start=0):
         seen = {start}
         dq = deque([start])
         while dq:
@@ -303,6 +323,16 @@ class Body:
                         src = rv["pl"]["l"]
                     elif rv["k"] == "cast":
                         src = operand_local(rv["ops"][0])
+                    elif rv["k"] == "aggr" and rv.get("ak") in ("adt", "tuple"):
+                        # wrapper structs such as AssertUnwindSafe(closure) / Box-like newtypes
+                        for o in rv.get("ops", []):
+                            l = operand_local(o)
+                            if l is not None and m.get(l):
+                                d = st["dst"]["l"]
+                                before = len(m[d])
+                                m[d] |= m[l]
+                                if len(m[d]) != before:
+                                    changed = True
                     if src is not None and m.get(src):
                         d = st["dst"]["l"]
                         before = len(m[d])
@@ -498,6 +528,23 @@ class Program:
         self._callgraph = None
         self._children = None
 
+    def const_items(self, op):
+        """Item paths named by a constant operand, looking through promoted constants
+        (`&SOME_THREAD_LOCAL` is a promoted whose body mentions the item)."""
+        out = set()
+        if op.get("k") != "const" or not op.get("item"):
+            return out
+        if op.get("promoted") is not None:
+            pb = self.get("%s::promoted[%d]" % (norm(op["item"]), op["promoted"]))
+            if pb is not None:
+                for s in pb.sites():
+                    for o in pb.operands_of(pb.at(s)):
+                        if o.get("k") == "const" and o.get("item") and o.get("promoted") is None:
+                            out.add(norm(o["item"]))
+        else:
+            out.add(norm(op["item"]))
+        return out
+
     # ---- lookup ------------------------------------------------------------------
     def get(self, nkey):
         """Unique body with this normalised key, or None."""
@@ -595,7 +642,24 @@ class Program:
         targets = set(targets)
         icc = set(invoke_closure_callees or ())
         M = set()
-        bodies = [b for b in self.all_bodies()]
+        # only functions from which a target is reachable at all can must-call it
+        if not hasattr(self, "_rev"):
+            rev = defaultdict(set)
+            for k, cs in self.callgraph.items():
+                for c in cs:
+                    rev[c].add(k)
+            self._rev = rev
+        cand = set()
+        dq = deque(targets)
+        while dq:
+            k = dq.popleft()
+            if k in cand:
+                continue
+            cand.add(k)
+            for pk in self._rev.get(k, ()):
+                if pk not in cand:
+                    dq.append(pk)
+        bodies = [b for b in self.all_bodies() if b.nkey in cand]
 
         def site_hits(b, s, goal):
             if not b.is_term(s):
@@ -724,9 +788,11 @@ class Slicer:
     callables handed to them), 'field:<Adt.field>' for field reads, 'const:<v>' for constants,
     'arg:<n>' for parameters."""
 
-    def __init__(self, body, alias_defs=True):
+    def __init__(self, body, alias_defs=True, control=False):
         self.b = body
         self.alias_defs = alias_defs
+        self.control = control      # also follow the branch conditions that control each definition
+        self._cd = None
         self.defs = defaultdict(list)   # local -> [(site, stmt)]
         self.alias = defaultdict(set)   # temp local holding &mut X  -> X
         b = body
@@ -790,8 +856,8 @@ class Slicer:
         elif op.get("k") == "const":
             if "ev" in op:
                 labels.add("const:%s" % op["ev"])
-            if op.get("item"):
-                labels.add("item:" + norm(op["item"]))
+            for it in self.b.prog.const_items(op):
+                labels.add("item:" + it)
 
     def _pl(self, pl, labels, locs):
         locs.add(pl["l"])
@@ -820,6 +886,18 @@ class Slicer:
                 for x in lc:
                     if x not in seen:
                         dq.append(x)
+                if self.control:
+                    if self._cd is None:
+                        self._cd = control_deps(self.b)
+                    for sw in self._cd.get(s.bb, ()):
+                        t = self.b.term(sw)
+                        if t["k"] == "switch":
+                            lb2, lc2 = set(), set()
+                            self._op(t["discr"], lb2, lc2)
+                            labels |= lb2
+                            for x in lc2:
+                                if x not in seen:
+                                    dq.append(x)
         return labels, seen
 
     def slice_operand(self, op):
